@@ -136,23 +136,11 @@ func (e *Endpoint) CloseWrite() {
 func (e *Endpoint) Close() {
 	e.w.mu.Lock()
 	e.w.conns[e.conn][e.id].closed = true
-	in := e.w.conns[e.conn][1-e.id]
-	in.gone = true
-	var wake []*op
-	rest := e.w.pending[:0]
-	for _, o := range e.w.pending {
-		if o.kind == opWrite && e.w.outDir(o) == in {
-			o.n, o.err = o.done, io.ErrClosedPipe
-			wake = append(wake, o)
-			continue
-		}
-		rest = append(rest, o)
-	}
-	e.w.pending = rest
+	e.w.conns[e.conn][1-e.id].gone = true
 	e.w.mu.Unlock()
-	for _, o := range wake {
-		close(o.grant)
-	}
+	// pending writes of the peer are not woken here: each becomes an enabled
+	// "fails" step, so that the order in which goroutines notice is a
+	// scheduler choice (one wake-up per step keeps executions deterministic).
 }
 
 // Go starts a main actor; the execution is finished when all main actors returned.
@@ -169,6 +157,7 @@ type alternative struct {
 	o     *op
 	bytes int  // bytes to move (reads: bytes returned; writes: bytes accepted)
 	eof   bool // read returns EOF
+	fail  bool // the operation fails (peer gone / connection broken)
 	brk   bool // break the connection here
 	cost  int
 	descr string
@@ -215,6 +204,15 @@ func (w *World) enabled(opt Options) []alternative {
 		d := w.outDir(o)
 		var avail int
 		var eof bool
+		if w.broken || (o.kind == opWrite && d.gone) {
+			base := 0
+			if !first {
+				base = 1
+			}
+			first = false
+			alts = append(alts, alternative{o: o, fail: true, cost: base, descr: fmt.Sprintf("%d:%s.%s:FAIL", o.conn, []string{"client", "server"}[o.ep], []string{"read", "write"}[o.kind])})
+			continue
+		}
 		if o.kind == opRead {
 			switch {
 			case len(d.buf) > 0:
@@ -263,7 +261,7 @@ func (w *World) enabled(opt Options) []alternative {
 			}
 		}
 	}
-	if opt.Faults && len(alts) > 0 {
+	if opt.Faults && len(alts) > 0 && !w.broken {
 		alts = append(alts, alternative{brk: true, cost: 1, descr: "break"})
 	}
 	return alts
@@ -275,18 +273,27 @@ var errBroken = errors.New("connection broken (injected)")
 func (w *World) apply(a alternative) {
 	w.mu.Lock()
 	if a.brk {
+		// the connection breaks: pending operations fail one per step from now on
 		w.broken = true
-		ps := w.pending
-		w.pending = nil
 		w.mu.Unlock()
-		for _, o := range ps {
-			if o.kind == opRead {
-				o.n, o.err = 0, io.ErrUnexpectedEOF
-			} else {
-				o.n, o.err = o.done, io.ErrClosedPipe
+		return
+	}
+	if a.fail {
+		o := a.o
+		w.last = [3]int{o.conn, o.ep, int(o.kind)}
+		for i, p := range w.pending {
+			if p == o {
+				w.pending = append(w.pending[:i], w.pending[i+1:]...)
+				break
 			}
-			close(o.grant)
 		}
+		w.mu.Unlock()
+		if o.kind == opRead {
+			o.n, o.err = 0, io.ErrUnexpectedEOF
+		} else {
+			o.n, o.err = o.done, io.ErrClosedPipe
+		}
+		close(o.grant)
 		return
 	}
 	o := a.o
@@ -346,8 +353,23 @@ func (w *World) apply(a alternative) {
 	}
 }
 
-// Break breaks the connection from outside the menu (used to end an execution).
-func (w *World) Break() { w.apply(alternative{brk: true}) }
+// Break ends an execution: the connection is broken and every parked
+// operation fails at once (the outcome has been decided by then).
+func (w *World) Break() {
+	w.mu.Lock()
+	w.broken = true
+	ps := w.pending
+	w.pending = nil
+	w.mu.Unlock()
+	for _, o := range ps {
+		if o.kind == opRead {
+			o.n, o.err = 0, io.ErrUnexpectedEOF
+		} else {
+			o.n, o.err = o.done, io.ErrClosedPipe
+		}
+		close(o.grant)
+	}
+}
 
 // Pending describes the parked operations (deadlock reports).
 func (w *World) PendingTable() string {
